@@ -29,7 +29,7 @@ ASSUMPTIONS = [
     "dns.resolver.time is a virtual clock; it is frozen while a concurrent history runs",
     "linearizability search is exact for the history sizes used (<= 14 operations); exceeding the node budget is inconclusive, never a violation",
 ]
-REQUIRED = ["mon.cleaning_pass_due_in_concurrent_part", "mon.seq_step", "mon.never_stale", "mon.lru_bound", "mon.stats_account", "mon.ring_witness", "mon.concurrent_history", "mon.linearizable", "mon.uncontrolled_ops"]
+REQUIRED = ["mon.lookup_that_waited_for_the_lock", "mon.cleaning_pass_due_in_concurrent_part", "mon.seq_step", "mon.never_stale", "mon.lru_bound", "mon.stats_account", "mon.ring_witness", "mon.concurrent_history", "mon.linearizable", "mon.uncontrolled_ops"]
 BUDGET = {"quick": 40.0, "thorough": 420.0}
 
 
@@ -507,8 +507,62 @@ def stress(ctx, rng, nops):
         sys.setswitchinterval(old)
 
 
+class _SlowLock:
+    """stands in for the cache's lock: acquiring it takes virtual time (as when another thread is inside the cache)"""
+
+    def __init__(self, real, clock, delay):
+        self.real, self.clock, self.delay = real, clock, delay
+        self.acquired_at = []
+
+    def __enter__(self):
+        self.clock.now += self.delay
+        self.acquired_at.append(self.clock.now)
+        return self.real.__enter__()
+
+    def __exit__(self, *a):
+        return self.real.__exit__(*a)
+
+    def acquire(self, *a, **k):
+        self.clock.now += self.delay
+        self.acquired_at.append(self.clock.now)
+        return self.real.acquire(*a, **k)
+
+    def release(self):
+        return self.real.release()
+
+
+def waited_for_lock_drill(ctx, rng, kind):
+    """a lookup that had to wait for the cache's lock while its entry ran out: freshness is judged where the operation takes
+    effect -- inside its critical section -- not when the call was made"""
+    ctx.count("evaluations")
+    ctx.count("mon.lookup_that_waited_for_the_lock")
+    clock = Clock(rng.choice((1000.0, 1.7e9)))
+    with swap_attr(dns.resolver, "time", clock):
+        cache = dns.resolver.Cache(cleaning_interval=1e6) if kind == "cache" else dns.resolver.LRUCache(8)
+        k = KEYS[0]
+        life = rng.choice((1.0, 5.0, 30.0))
+        a = Ans(1, clock.now + life)
+        cache.put(k, a)
+        wait = rng.choice((0.0, life / 2, life, life * 2, life + 100))
+        slow = _SlowLock(cache.lock, clock, wait)
+        cache.lock = slow
+        try:
+            got = cache.get(k)
+        finally:
+            cache.lock = slow.real
+        case = {"kind": "waited-for-lock", "cache": kind, "life": life, "wait": wait}
+        inside = slow.acquired_at[0] if slow.acquired_at else clock.now
+        ctx.seen(("waited", kind, wait >= life, got is not None))
+        if got is not None and a.expiration <= inside:
+            ctx.violation(f"stale-answer-returned:{kind}:lookup-waited-for-the-lock", f"entry expires at +{life}, the lookup got the lock at +{wait}, and returned the entry", case)
+        elif got is None and a.expiration > clock.now:
+            ctx.violation(f"fresh-answer-not-returned:{kind}:lookup-waited-for-the-lock", f"entry expires at +{life}, lock acquired at +{wait}", case)
+
+
 def run(spec, ctx):
     rng = ctx.rng
+    for i in range(40):
+        waited_for_lock_drill(ctx, rng, rng.choice(("lru", "cache")))
     for i in range(spec["n_seq"]):
         if ctx.expired(0.4):
             break
